@@ -2,14 +2,9 @@ module govc
 
 go 1.24.0
 
-require (
-	github.com/hashicorp/raft v0.0.0
-	golang.org/x/tools v0.29.0
-)
+require golang.org/x/tools v0.29.0
 
 require (
 	golang.org/x/mod v0.22.0 // indirect
 	golang.org/x/sync v0.10.0 // indirect
 )
-
-replace github.com/hashicorp/raft => /repo
